@@ -11,3 +11,22 @@ pub(crate) mod witness;
 
 pub(crate) use lib::{preflight_private_batch_proofs, verify_dummy_private_batch_template};
 pub use lib::{PublicBatchInputs, PublicBatchProver};
+
+/// Verification hook (compiled only with `--cfg quantus_network_qp_zk_circuits_verif`): the
+/// crate-private public-batch preflight, callable from the conformance harness.
+#[cfg(quantus_network_qp_zk_circuits_verif)]
+pub fn verif_preflight_private_batch_proofs(
+    proofs: &[plonky2::plonk::proof::ProofWithPublicInputs<
+        zk_circuits_common::circuit::F,
+        zk_circuits_common::circuit::C,
+        { zk_circuits_common::circuit::D },
+    >],
+    num_private_batch_proofs: usize,
+    private_batch_verifier: &plonky2::plonk::circuit_data::VerifierCircuitData<
+        zk_circuits_common::circuit::F,
+        zk_circuits_common::circuit::C,
+        { zk_circuits_common::circuit::D },
+    >,
+) -> anyhow::Result<()> {
+    preflight_private_batch_proofs(proofs, num_private_batch_proofs, private_batch_verifier)
+}
